@@ -102,7 +102,9 @@ def run_history(desc, base, ops, ctx, bm, construct="at_base"):
 
     def ptol(T):
         sc = max(1.0, float(np.linalg.norm(T[:3, 3])))
-        return (tol.ABS5 if model.in_band() else 1e-7) * sc
+        big = float(np.max(np.abs(model.theta))) if model.n else 0.0
+        # a diverged free IK can leave joint values of 1e10 rad: sin/cos of S*theta then carry eps*|theta| of error
+        return (2e-6 * model.n if model.in_band() else 1e-7) * sc + 1e-14 * big * sc
 
     def cmp_pose(clause, key, got_tm, want, step):
         ctx.clause(clause)
@@ -149,7 +151,7 @@ def run_history(desc, base, ops, ctx, bm, construct="at_base"):
                 ctx.violation(clause, clause + "/raises/%s/after=%s" % (type(e).__name__, after), {"exc": repr(e)[:300], "step": step}, hist)
                 continue
             sc = max(1.0, tol.maxabs(want))
-            t = (tol.ABS5 if model.in_band() else 1e-6) * sc
+            t = (2e-6 * model.n if model.in_band() else 1e-6) * sc + 1e-13 * float(np.max(np.abs(model.theta))) * sc
             if J.shape != want.shape or tol.maxabs(J - want) > t:
                 ctx.violation(clause, clause + "/after=" + after, {"err": tol.maxabs(J - want) if J.shape == want.shape else None,
                                                                    "tol": t, "step": step}, hist)
@@ -176,6 +178,10 @@ def run_history(desc, base, ops, ctx, bm, construct="at_base"):
                 ctx.cls("ik:%s:%s" % ("free" if op["protect"] else "limits", "success" if suc else "fail"))
                 if op["protect"]:
                     model.theta = th_ret.copy()
+                    if model.n == 1 and abs(model.theta[0]) > 2 * PI:
+                        # the stored state is angleMod(returned): for a 1-element vector that is a NEW array (for n > 1 the
+                        # wrap is in place and the returned vector IS the stored one)
+                        model.theta = model.theta % (2 * PI)
                 elif suc:
                     model.theta = th_ret.copy()
                 elif op["check"]:
